@@ -457,6 +457,8 @@ Lemma rep_facts st :
 Proof.
   destruct st as [|racc|ph racc|p|n|q esc racc|n cl racc|esc racc|racc|n racc|racc|n cl racc|];
     repeat split; intros; try reflexivity; try (destruct ph; reflexivity).
+  - cbn [rep junction_ok extends step_st]. destruct (is_ident_char c); reflexivity.
+  - cbn [rep junction_ok extends step_st]. destruct (num_next ph c); reflexivity.
 Qed.
 
 Lemma is_start_true st : is_start st = true -> st = LStart.
@@ -469,7 +471,7 @@ Lemma adj_to_item T k prev mg it :
   spacing_ok T = true -> adj_ok k prev mg it = true -> item_ok T k prev mg it = true.
 Proof.
   intros Hsp Ha. unfold spacing_ok in Hsp. apply andb_true_iff in Hsp as [Hstr Hbrk].
-  unfold adj_ok in Ha. unfold item_ok. destruct k as [stk st]. cbn [snd] in *.
+  unfold adj_ok in Ha. unfold item_ok in *. destruct k as [stk st]. cbn [snd] in *.
   destruct (rep_facts st) as [Rj [Rc [Re Rf]]].
   destruct (imode it) as [|p|  |n| | ]; try exact Ha.
   - (* MStr *)
